@@ -23,7 +23,7 @@ FULL = ('iter', 'into_iter', 'deref', 'enumerate', 'rev', 'as_slice')
 
 
 def sk(t):
-    return re.sub(r'#\d+\.\d+', '', show(t, -60))
+    return re.sub(r'#(?:i\d+:)?\d+\.\d+', '', show(t, -60))
 
 
 NARROWING = ('filter', 'filter_map', 'skip', 'take', 'skip_while', 'take_while', 'step_by', 'map_while', 'flat_map')
